@@ -301,6 +301,10 @@ def do_op(k, name, a, b, text):
         res(k)
     elif name == "str_ref":
         res(k, simlib.strRef())
+    elif name == "str_val2":
+        res(k, simlib.strVal2(a))
+    elif name == "str_val3":
+        res(k, simlib.strVal3(a))
     elif name == "str_val":
         res(k, simlib.strVal(a))
     elif name == "str_owned":
